@@ -28,7 +28,11 @@ def run(ck, F):
     ck.rule("R3", "generated client methods / free functions: `assert_send` on every operation shape sample (type-checked skeletons)")
     ck.rule("R4", "member-type universe: struct member type holes come only from RustFieldType's Display under Option/Vec; no "
                   "Rc/RefCell/Cell/raw pointer/dyn in any struct template literal")
-    segs = W.prelude_segments(F)
+    try:
+        segs = W.prelude_segments(F)
+    except W.FixedTextUnreadable as u:
+        ck.undecided("R1", "prelude", "-", f"the fixed part of the output (header, helper text) could not be assembled: {u}")
+        return
     ok, diags = W.check(F, segs, "c18")
     wit = open(W.TAIL).read()
     fns = re.findall(r"\n    fn (\w+)", wit)
